@@ -286,6 +286,13 @@ impl ResolvedRoundingOptions {
         if let Some(max) = maximum {
             increment.validate(max.into(), false)?;
         }
+        // If roundingIncrement > 1 and largestUnit is not smallestUnit and TemporalUnitCategory(smallestUnit) is date,
+        // throw a RangeError exception.
+        if increment.get() > 1 && largest_unit != smallest_unit && smallest_unit.is_date_unit() {
+            return Err(TemporalError::range().with_message(
+                "For date units with roundingIncrement > 1, largestUnit must be the same as smallestUnit.",
+            ));
+        }
 
         Ok(Self {
             largest_unit,
